@@ -37,12 +37,14 @@ struct H {
     std::atomic<int> running_now{0};
     std::atomic<bool> overlapped{false}, ran_during_destruction{false};
     std::set<std::thread::id> worker_threads;       // OS threads tasks ran on
+    std::atomic<long> progress{0};                  // tasks started/finished, submissions returned
     std::thread::id creator;
 
     void violation(const std::string& m) { std::lock_guard<std::mutex> g(mu); if (first_violation.empty()) first_violation = m; }
     Task* new_task(const std::vector<long>& r) { std::lock_guard<std::mutex> g(mu); tasks.emplace_back((int)tasks.size(), r.at(1), r.at(2), r[0] == OP_ASYNC); return &tasks.back(); }
     void execute(Task* t) {
         if (destroyed) violation("task " + std::to_string(t->id) + " started after the pool's destructor returned");
+        progress++;
         int n = ++t->runs;
         if (n > 1) violation("task " + std::to_string(t->id) + " executed " + std::to_string(n) + " times");
         if (std::this_thread::get_id() == creator) violation("task " + std::to_string(t->id) + " ran on the submitting vCPU, not on a pool worker");
@@ -53,7 +55,7 @@ struct H {
         else if (t->body == 2) photon::thread_usleep((uint64_t)t->arg);
         --running_now;
         if (destroyed) violation("task " + std::to_string(t->id) + " was still running after the pool's destructor returned");
-        t->finished = true;
+        t->finished = true; progress++;
     }
     template <typename Ctx> void do_call(Task* t) {
         pool->call<Ctx>([this, t]() { execute(t); });
@@ -79,6 +81,7 @@ struct AsyncObj {
 
 void H::submit(bool os, const std::vector<long>& r) {
     if (r[0] == OP_PAUSE) { if (os) std::this_thread::sleep_for(std::chrono::microseconds(r.at(1))); else photon::thread_usleep((uint64_t)r.at(1)); return; }
+    progress++;
     Task* t = new_task(r);
     if (r[0] == OP_ASYNC) { pool->async_call(new AsyncObj(t)); return; }
     bool autoctx = r.at(3) != 0;
@@ -102,11 +105,13 @@ Outcome run_case(const Case& c) {
     // watchdog: the whole case normally takes milliseconds
     std::atomic<bool> case_done{false};
     std::thread watchdog([&]() {
-        for (int i = 0; i < 3000 && !case_done; i++) std::this_thread::sleep_for(std::chrono::milliseconds(10));
+        // nothing started, finished or was submitted for 30 s (load makes a case slow, it does not stop it)
+        long last = -1; int still = 0;
+        while (!case_done && still < 3000) { std::this_thread::sleep_for(std::chrono::milliseconds(10)); long p = h.progress.load(); if (p != last) { last = p; still = 0; } else still++; }
         if (case_done) return;
         std::ostringstream o; int lost = 0;
         { std::lock_guard<std::mutex> g(h.mu); for (auto& t : h.tasks) if (!t.finished) { lost++; o << " task" << t.id << (t.is_async ? "(async" : "(call") << ",runs=" << t.runs.load() << ")"; } }
-        Outcome out = Outcome::violation("no completion within 30 s: " + std::to_string(lost) + " accepted task(s) never finished:" + o.str() +
+        Outcome out = Outcome::violation("no progress for 30 s: " + std::to_string(lost) + " accepted task(s) never finished:" + o.str() +
                                          (h.destroying ? " [inside ~WorkPool]" : "") + (h.first_violation.empty() ? "" : "; earlier: " + h.first_violation));
         vf::finish_now(out);
     });
